@@ -15,7 +15,7 @@ from ..common import Stats, Violation
 from ..gengraph import build_graph, expected_structure, graph_specs, json_payloads, small_payloads, structure
 
 from earthkit.workflows import Cascade, fluent  # noqa: E402
-from earthkit.workflows.graph import Graph, deserialise, from_json, rename_nodes, serialise, to_json  # noqa: E402
+from earthkit.workflows.graph import Graph, Node, deserialise, from_json, rename_nodes, serialise, to_json  # noqa: E402
 
 PROPERTY = "C12"
 LEVEL = "exploration"
@@ -110,6 +110,8 @@ def cases(draw):
         # history before the round trip under test: the graph was already serialised once (both routes), and then possibly renamed
         # in place -- by a prefix, or by a rotation of its own names (every name still occurs, on another node)
         c["history"] = draw(st.sampled_from([None, None, "serialised_before", "renamed_prefix", "renamed_rotation"]))
+    if route == "file" and kind == "spec":
+        c["history"] = draw(st.sampled_from([None, None, "saved_then_iadd", "loaded_then_iadd"]))
     if route == "neq":
         c["spec"] = draw(graph_specs(max_nodes=8, min_nodes=1, names="unicode", payloads=small_payloads, dup_bias=False))
         c["mut"] = [draw(st.sampled_from(["payload", "edge", "outputs", "extra", "input_name"])), draw(st.integers(0, 10**6))]
@@ -191,6 +193,32 @@ def run_case(c) -> tuple[bool, list[str]]:
             back = deserialise(serialise(g))
         elif route == "json":
             back = from_json(to_json(g))
+        elif c.get("history") in ("saved_then_iadd", "loaded_then_iadd"):
+            # a Cascade that was saved (or loaded) before, then grew by `+=`, is saved again: the second file holds the union
+            classes.append("history:" + c["history"])
+            path0 = os.path.join(_tmpdir(), "g0.dill")
+            path = os.path.join(_tmpdir(), "g.dill")
+            casc = Cascade(g)
+            casc.serialise(path0)
+            if c["history"] == "loaded_then_iadd":
+                casc = Cascade.from_serialised(path0)
+            extra_name = "\x00added-later"
+            # (a payload no generated node has: `+=` de-duplicates, and an equal source node would legitimately be merged)
+            extra = Node(extra_name, payload=(payload_fns.BY_NAME["double"], [987654], {"k": "added-later"}))
+            casc += Cascade(Graph([extra]))
+            g = casc._graph
+            # `+=` de-duplicates the whole union (C11's subject): what must come back is the graph the Cascade holds NOW, read off
+            # its live node objects -- and the node added after the first save must be part of it
+            st_now, n0 = structure(g)
+            if any(len(v) != 1 for v in st_now.values()):
+                return False, classes + ["name_clash_after_iadd_skipped"]
+            exp = {k: v[0] for k, v in st_now.items()}
+            if extra_name not in exp:
+                raise Violation("the node added with += is not in the Cascade's graph", "iadd-lost-node")
+            casc.serialise(path)
+            back = Cascade.from_serialised(path)._graph
+            os.unlink(path)
+            os.unlink(path0)
         else:
             path = os.path.join(_tmpdir(), "g.dill")
             Cascade(g).serialise(path)
